@@ -123,7 +123,7 @@ def run_phase(chk, name, harness, cases, id_prefixes, prec="d", vendor=False, id
             if crash_is_violation:
                 site = ""
                 for ln in c["stderr"].splitlines():
-                    if ln.strip().startswith("#") and "/repo/" in ln: site = ln.split("/repo/")[-1].split(":")[0]; break
+                    if ln.strip().startswith("#") and e2.REPO + "/" in ln: site = ln.split(e2.REPO + "/")[-1].split(":")[0]; break
                 chk.violation({"engine": "E2", "harness": os.path.basename(harness), "prec": prec, "assert_id": "crash", "site": site, "case": " ".join(map(str, c["case"]))}, msg,
                               {"harness": harness, "prec": prec, "defs": list(defs), "case": c["case"], "path": c["prefix"], "asan": asan})
             else: chk.inconclusive.append(msg[:400])
